@@ -2,7 +2,7 @@
 from props import helix_common as hc
 
 def run(ck):
-    hc.standard(ck, "C06", "C06.v", ["HelixCommon.v", "HelixLaws.v"], "c06",
+    hc.standard(ck, "C06", "C06.v", ["HelixCommon.v", "HelixLaws.v", "C06Proofs.v"], "c06",
                 "helices of both charges (typical / low-pt / high-pt / phi0 at the wrap / dr = 0, < 0, large) x old and new pivots "
                 "(origin, near, far, on an axis) x object / record / array form, all from one PRNG; for each: trajectory points before "
                 "and after the move compared in the BESIII field (signed radius alpha/kappa), closest-approach distance; plus every "
